@@ -523,6 +523,9 @@ class World:
                     it.throw("ValueError", str(e), n)
             if isinstance(v, SStr):
                 ok = it.fresh_bool("float_ok")
+                # assumed contract of float(): digits '.' digits* is a valid literal
+                DIG_ = z3.Range("0", "9")
+                it.path.assume(z3.Implies(z3.InRe(v.z, z3.Concat(z3.Plus(DIG_), z3.Re(z3.StringVal(".")), z3.Star(DIG_))), ok.z), check=False)
                 it.guard(ok, "ValueError", n, "could not convert string to float")
                 return it.fresh_float("parsed")
             it.guard(False, "TypeError", n, "float() argument must be a string or a number")
